@@ -776,3 +776,80 @@ func (in *Interp) evalSpecial(th *Thread, name string, e App, env *Env, scope in
 	}
 	return nil, false
 }
+
+// LibraryArity returns the number of arguments (type arguments included) a GooseLang library
+// function takes, for the arity monitor of C05.
+func LibraryArity(name string) (int, bool) {
+	if name == "ForSlice" {
+		return 5, true
+	}
+	if name == "Fork" {
+		return 1, true
+	}
+	p, ok := prims[name]
+	if !ok || p.Arity == 0 {
+		return 0, false
+	}
+	return p.Arity, true
+}
+
+// WalkExpr calls f on every sub-expression of e.
+func WalkExpr(e Expr, f func(Expr)) {
+	if e == nil {
+		return
+	}
+	f(e)
+	switch e := e.(type) {
+	case Paren:
+		WalkExpr(e.X, f)
+	case App:
+		WalkExpr(e.Fn, f)
+		for _, a := range e.Args {
+			WalkExpr(a, f)
+		}
+	case BinOp:
+		WalkExpr(e.L, f)
+		WalkExpr(e.R, f)
+	case Not:
+		WalkExpr(e.X, f)
+	case Load:
+		WalkExpr(e.Ty, f)
+		WalkExpr(e.X, f)
+	case Store:
+		WalkExpr(e.Ty, f)
+		WalkExpr(e.Dst, f)
+		WalkExpr(e.Val, f)
+	case Let:
+		WalkExpr(e.Val, f)
+		WalkExpr(e.Body, f)
+	case Seq:
+		WalkExpr(e.A, f)
+		WalkExpr(e.B, f)
+	case If:
+		WalkExpr(e.C, f)
+		WalkExpr(e.T, f)
+		WalkExpr(e.E, f)
+	case Lam:
+		WalkExpr(e.Body, f)
+	case Rec:
+		WalkExpr(e.Body, f)
+	case For:
+		WalkExpr(e.Cond, f)
+		WalkExpr(e.Post, f)
+		WalkExpr(e.Body, f)
+	case Tuple:
+		for _, x := range e.Elems {
+			WalkExpr(x, f)
+		}
+	case FieldVals:
+		for _, x := range e.Vals {
+			WalkExpr(x, f)
+		}
+	case FieldTys:
+		for _, x := range e.Tys {
+			WalkExpr(x, f)
+		}
+	case Scoped:
+		WalkExpr(e.X, f)
+	}
+}
